@@ -1,4 +1,5 @@
 import Ampy.Lemmas.Merge
+import Ampy.Lemmas.Extra
 /-!
 # C06 — groups, and layers split from one group, respect the minimum separation
 
@@ -58,5 +59,27 @@ theorem C06_components_separated {minSep : Rat} (h0 : 0 ≤ minSep) (sortedBases
 theorem C06_remerge_le (minSep : Rat) (sortedBases : List Rat) (order ids : List Nat) (n : Nat) :
     (remerge minSep sortedBases order ids n).2 ≤ n :=
   remerge_le minSep sortedBases order ids n
+
+/-- Report-time base = decision-time base for the layers split from a group (no ceilometer excluded):
+the values `metarize('layers')` hands to `calc_base_height` for layer `off + 10·ind + k` are exactly the
+values of mixture component `k` in the order `ncomp_from_gmm` saw them — for every row order of the input,
+every look-back and percentile (this is what the repair of F2b establishes). Together with
+`C06_components_separated` (nothing re-merged ⇒ component bases pairwise `≥ minSep` apart) this gives the
+second clause of C06. -/
+theorem C06_layer_base_is_component_base {α} [DecidableEq α] (K : Kern) (P : PPrms α) (hK : KernOK K P.basePerc)
+    (data : List (Hit α)) (gids : List Int) (groups : Table) (hg : IdsExact data gids)
+    (hcid : (groups.map (·.cid)).Nodup) (hex : P.exclude = [])
+    (lids ncomps : List Int) (h : layerIds K P data gids groups = .ok (lids, ncomps))
+    (ind : Nat) (g : Row) (hgi : groups[ind]? = some g) (n : Nat) (hn : ncomps[ind]? = some (n : Int)) (hn2 : 2 ≤ n)
+    (minSep : Rat) (hms : minSepFor P.toPrms g.base = .ok minSep) (ids : List Nat)
+    (hgmm : ncompFromGmm K P (groupHeights K data gids g.cid)
+              (min ((groupHeights K data gids g.cid).eraseDups).length 3) minSep = .ok (n, ids))
+    (k : Nat) (hk : k < n) :
+    calcBase K.pctl (selectSorted K.toMetK data
+        (baseMask P.toPrms data lids (lidOffset gids + 10 * (ind : Int) + (k : Int)))) P.lookback P.basePerc =
+    calcBase K.pctl (((groupHeights K data gids g.cid).zip ids).filterMap fun (v, l) => if l = k then some v else none)
+        P.lookback P.basePerc := by
+  rw [layer_selection_eq_component_lt K P hK data gids groups hg hcid hex lids ncomps h ind g hgi n hn hn2 minSep hms
+    ids hgmm k hk]
 
 end Ampy
